@@ -2,8 +2,11 @@ package main
 
 import (
 	"fmt"
+	"net"
 	"strings"
 
+	"github.com/casbin/casbin/v2/model"
+	"github.com/casbin/govaluate"
 	"github.com/casbin/casbin/v2/util"
 
 	"verif/harness/internal/proto"
@@ -54,7 +57,60 @@ func obsStr(f func() string) (obs string) {
 	return "s:" + proto.Enc(f())
 }
 
-func kmImpl(fn, key1, key2, v string) string {
+// the functions Enforce really calls: the model's function map, by built-in name
+var c09FM = func() map[string]govaluate.ExpressionFunction {
+	fm := model.LoadFunctionMap()
+	return fm.GetFunctions()
+}()
+var c09FMDiffs []string
+var c09FMCalls int
+
+// viaFunctionMap evaluates the built-in as a matcher would (through the function registered under its name) and
+// records a difference from the direct call
+func viaFunctionMap(fn string, direct string, args ...string) {
+	f, ok := c09FM[fn]
+	if !ok {
+		if len(c09FMDiffs) < 5 {
+			c09FMDiffs = append(c09FMDiffs, fn+": not registered in the function map")
+		}
+		return
+	}
+	c09FMCalls++
+	obs := func() (obs string) {
+		defer func() {
+			if r := recover(); r != nil {
+				obs = "none"
+			}
+		}()
+		ia := make([]interface{}, len(args))
+		for i, a := range args {
+			ia[i] = a
+		}
+		r, err := f(ia...)
+		if err != nil {
+			return "none"
+		}
+		switch x := r.(type) {
+		case bool:
+			return proto.Bool(x)
+		case string:
+			return "s:" + proto.Enc(x)
+		}
+		return fmt.Sprintf("?%T", r)
+	}()
+	if obs != direct && len(c09FMDiffs) < 5 {
+		c09FMDiffs = append(c09FMDiffs, fmt.Sprintf("%s%q: util function = %s, function registered under that name in the model's function map = %s", fn, args, direct, obs))
+	}
+}
+
+func kmImpl(fn, key1, key2, v string) (out string) {
+	defer func() {
+		if fn == "keyGet2" || fn == "keyGet3" {
+			viaFunctionMap(fn, out, key1, key2, v)
+		} else {
+			viaFunctionMap(fn, out, key1, key2)
+		}
+	}()
 	switch fn {
 	case "keyMatch":
 		return obsBool(func() bool { return util.KeyMatch(key1, key2) })
@@ -82,7 +138,7 @@ func runC09(c *Ctx) {
 		maxPat, maxPath = 4, 5
 	}
 	c.Exhaustive = true
-	c.Rule = fmt.Sprintf("all patterns of the segment grammar (literal | placeholder | trailing /*) with <= %d segments over {a, b, empty, id, x} x all paths with <= %d segments over {a, b, 1, empty} (plus query strings for keyMatch5), for keyMatch2/3/4/5 and keyGet2/3 (after regexMatch has been called on every pattern text and on its regex translation: the answers must not depend on what was called before), against the Lean model (rendered pattern text) and the Lean segment semantics (bounded-exhaustive); raw pattern strings over {/ a : { } * ? .} for the boundary of the modelled regex fragment; keyMatch/keyGet over all short strings; random IPv4 and IPv6 addresses/CIDRs incl. boundary prefix lengths and malformed text; non-trivial = a pattern with a placeholder or wildcard on which some path matches and some does not; distinct = (function, pattern)", maxPat, maxPath)
+	c.Rule = fmt.Sprintf("all patterns of the segment grammar (literal | placeholder | trailing /*) with <= %d segments over {a, b, empty, id, x} x all paths with <= %d segments over {a, b, 1, empty} (plus query strings for keyMatch5), for keyMatch2/3/4/5 and keyGet2/3 (after regexMatch has been called on every pattern text and on its regex translation: the answers must not depend on what was called before), against the Lean model (rendered pattern text) and the Lean segment semantics (bounded-exhaustive); raw pattern strings over {/ a : { } * ? .} for the boundary of the modelled regex fragment; keyMatch/keyGet over all short strings; random IPv4 and IPv6 addresses/CIDRs incl. boundary prefix lengths and malformed text; every call is also made through the function registered under the built-in's name in model.LoadFunctionMap() (what a matcher calls) and must give the same answer; IPv6 on the implementation only: every address against four spellings of a second address (as given, upper case, all groups written out, leading zeros), as a single address and as its /128, against net.IP equality; non-trivial = a pattern with a placeholder or wildcard on which some path matches and some does not; distinct = (function, pattern)", maxPat, maxPath)
 	segAlpha := []pseg{{false, "a"}, {false, "b"}, {false, ""}, {true, "id"}, {true, "x"}}
 	var patterns [][]pseg
 	var recP func(cur []pseg)
@@ -277,7 +333,24 @@ func runC09(c *Ctx) {
 				b = fmt.Sprintf("%s/%d", n, lens[rng.Intn(len(lens))])
 			}
 		}
+		// IPv6 is outside the Lean model: on the implementation, an address matches every other spelling of itself
+		// (hex case, written-out zeros, leading zeros) as a single address and as its own /128, and a single
+		// address b behaves like b/128 (CIDR arithmetic does not depend on the spelling)
+		if i%3 == 0 && !strings.Contains(b, "/") {
+			if pa, pb := net.ParseIP(a), net.ParseIP(b); pa != nil && pb != nil {
+				for _, sp := range []string{b, strings.ToUpper(b), expandIPv6(pb, false), expandIPv6(pb, true)} {
+					got := obsBool(func() bool { return util.IPMatch(a, sp) })
+					cidr := obsBool(func() bool { return util.IPMatch(a, sp+"/128") })
+					want := proto.Bool(pa.Equal(pb))
+					if got != want || cidr != want {
+						c.Direct("ipMatch disagrees with CIDR arithmetic on another spelling of an IPv6 address", fmt.Sprintf("ipMatch(%q, %q) = %s, ipMatch(%q, %q) = %s, the addresses are equal: %s", a, sp, got, a, sp+"/128", cidr, want))
+					}
+					c.Count("ipv6_spelling_checks", 1)
+				}
+			}
+		}
 		obs := obsBool(func() bool { return util.IPMatch(a, b) })
+		viaFunctionMap("ipMatch", obs, a, b)
 		c.W.Op(fmt.Sprintf("ip %s %s", proto.Enc(a), proto.Enc(b)), obs)
 		c.Evals++
 		c.Count("ip="+obs, 1)
@@ -285,4 +358,23 @@ func runC09(c *Ctx) {
 			c.Nontrivial("ip|" + a + "|" + b)
 		}
 	}
+	if len(c09FMDiffs) > 0 {
+		c.Direct("the function a matcher calls under a built-in's name is not the built-in", strings.Join(c09FMDiffs, "\n"))
+	}
+	c.Count("function_map_calls", c09FMCalls)
+}
+
+// expandIPv6 writes all eight groups of an address, optionally with leading zeros
+func expandIPv6(ip net.IP, leading bool) string {
+	ip = ip.To16()
+	gs := make([]string, 8)
+	for k := 0; k < 8; k++ {
+		v := int(ip[2*k])<<8 | int(ip[2*k+1])
+		if leading {
+			gs[k] = fmt.Sprintf("%04x", v)
+		} else {
+			gs[k] = fmt.Sprintf("%x", v)
+		}
+	}
+	return strings.Join(gs, ":")
 }
